@@ -74,7 +74,7 @@ package types
 //@ (define-fun WRK_ALL ((s (Array wrkchain.Key (Slice Int)))) Bool (forall ((i Int)) (! (=> (and (<= 0 i) (wcHas s i)) (WRK_INV s i)) :pattern ((select s (kWrkChain i))))))
 //@ (define-fun WRK_FRESH ((s (Array wrkchain.Key (Slice Int)))) Bool
 //@   (and (=> (wrkHighestSet s) (= (sl.len (select s kHighest)) 8))
-//@        (forall ((i Int)) (! (=> (and (wrkHighestSet s) (>= i (u64dec (select s kHighest)))) (and (not (wcHas s i)) (not (limHas s i)))) :pattern ((select s (kWrkChain i))) :pattern ((select s (kLimit i)))))
+//@        (forall ((i Int)) (! (=> (and (wrkHighestSet s) (>= i (u64dec (select s kHighest)))) (and (not (wcHas s i)) (not (limHas s i)) (= (blkCount s i) 0))) :pattern ((select s (kWrkChain i))) :pattern ((select s (kLimit i))) :pattern ((blkCount s i))))
 //@        (forall ((i Int) (h Int)) (! (=> (and (wrkHighestSet s) (>= i (u64dec (select s kHighest)))) (not (blkHas s i h))) :pattern ((select s (kBlock i h)))))))
 //@ end
 
